@@ -99,11 +99,36 @@ CLAIMED["C19"] = dict(
    design="7/C19")
 CLAIMED["C02"] = dict(
    technique="exhaustive enumeration of tail-context compositions x loop shapes, with a per-iteration state invariant (machine stack depth and live heap sampled by a native probe at every iteration)",
-   text="Every composition of the 17 tail contexts of length 1-2 (thorough 3) x 7 loop shapes (self, 2- and 3-way mutual, procedure parameter, variadic, closure-returned, closure with captured state that differs per round) is run for N = 64 and N = 20000 / 3000 iterations on the real interpreter; a native procedure called in every iteration samples the address of a local (real stack depth) and the evaluating thread's live heap. Neither may be larger in the second half of the iterations than in the first (stack byte-exact, heap within 256 B), and the result must be the closed form.",
+   text="Every composition of the 24 tail contexts of length 1-2 (thorough 3) x 7 loop shapes (self, 2- and 3-way mutual, procedure parameter, variadic, closure-returned, closure with captured state that differs per round) is run for N = 64 and N = 20000 / 3000 iterations on the real interpreter; a native procedure called in every iteration samples the address of a local (real stack depth) and the evaluating thread's live heap. Neither may be larger in the second half of the iterations than in the first (stack byte-exact, heap within 256 B), and the result must be the closed form.",
    note="the no-growth invariant observed at every iteration is what carries the claim beyond the executed N; tail calls through apply are a recorded known finding",
    design="7/C02")
 NOT_YET = "check not built yet (build in progress, see DESIGN.md section 12)"
 NA = {}
+
+# one-parameter scale ladders (DESIGN.md section 7, "Scale ladders"): appended to the level text
+LADDER = {
+ "C01": "argument / parameter / rest lists, definitions, bodies, loop rounds and live closures at every size N <= 300 (thorough 600), nesting depth <= 100",
+ "C02": "the tail call behind W <= 130 (400) clauses / operands / bindings and inside D <= 130 (150) nested forms, 15 families",
+ "C03": "assignments of look-alike objects (equal vector, sibling closure, other exactness) are among the operations",
+ "C04": "ellipsis runs of every length <= 160 (400) with distinct items; strings / characters spelled like a literal identifier",
+ "C05": "every derived form at every width N <= 120 (300) and nesting depth <= 60, incl. an outer variable assigned from the N-th sub-form",
+ "C06": "digit runs <= 60, identifiers / strings / |symbols| <= 300",
+ "C07": "messages quoting values of every length <= 300 characters; the empty symbol wherever values are quoted",
+ "C08": "every kind of fault N <= 80 (200) times in a row, directly and 20 deep in a recursion, before the probes",
+ "C09": "operand lists of every length 3..100 (300); Fibonacci quotients up to F(46)",
+ "C10": "operand lists of every length 3..100 (300)",
+ "C11": "lists of distinct elements of every length <= 130 (300); values of different types with the same spelling",
+ "C12": "libraries with N <= 64 (300) exports under only / except / prefix / rename chains, rotations and swaps; the same binding through two import sets",
+ "C13": "a stateful library, N <= 48 (128) further libraries and a late importer",
+ "C14": "a multi-byte character at every byte offset <= 700 of a healthy library file; library names whose file paths coincide",
+ "C15": "the failing form on every line / column <= 300 (700); forms spanning n lines / n operands",
+ "C16": "lists, dotted lists and vectors of every length <= 300 (600)",
+ "C17": "messages of every length up to ~700 bytes and the failing form on every line <= 302, through the binary",
+ "C18": "forms nested N <= 200 (400) deep in sessions, the predicate on depth / token length <= 400; values that print as an empty line",
+ "C19": "ladders of up to 1000 failing forms incl. macro uses whose expansion is rejected",
+}
+for _k, _v in LADDER.items():
+    CLAIMED[_k]["text"] = CLAIMED[_k]["text"].rstrip() + " Scale ladders (every size of a few fixed shapes, same oracle): " + _v + "."
 
 def main():
     hooks = subprocess.run(["git","-C","/repo","log","--format=%H %s"],capture_output=True,text=True).stdout.splitlines()
